@@ -717,7 +717,7 @@ func TestVerifC10Cache(t *testing.T) {
 
 	exportDir := os.Getenv("VERIF_C10_EXPORT")
 	maxExport := vuEnvInt("VERIF_C10_EXPORT_MAX", 1<<30)
-	caseID, nscen, nruns, ncontent, nexport := 0, 0, 0, 0, 0
+	caseID, nscen, nruns, ncontent, nexport, nprobes := 0, 0, 0, 0, 0, 0
 	for ui := 0; ui < nuniv; ui++ {
 		u := vuGen(rng, ui, false)
 		switch rng.Intn(3) { // requirements on untagged commits (pseudo-versions): none, a fifth, half of them
@@ -731,6 +731,38 @@ func TestVerifC10Cache(t *testing.T) {
 			t.Fatal(err)
 		}
 		out.emit(vc.describe())
+		// the repository lookup, observed on resolvers with different histories (model: Mvs/Locate.v): every project
+		// path with and without a major suffix, a directory below a project, paths that no repository hosts
+		var probePaths []string
+		for _, d := range u.dirs {
+			p := vc.projs[d]
+			pp := path.Join(p.repo, p.sub)
+			probePaths = append(probePaths, pp, pp+"@v2", pp+"/internal/x")
+		}
+		sort.Strings(probePaths)
+		probePaths = append(probePaths, vcOrg+"/nowhere", vcOrg+"/nowhere/pkg@v3", "git.verif.test/team/infra/nowhere/pkg", "verif.test", "nohost")
+		locs := map[string][3]string{}
+		locDiffers := false
+		probe := func(res *Resolver, history string) {
+			for _, pp := range probePaths {
+				ans := [3]string{"err", "", ""}
+				if repo, rel, err := res.findProjectRepository(context.Background(), pp); err == nil {
+					ans = [3]string{"ok", repo.Path(), rel}
+				}
+				nprobes++
+				if old, ok := locs[pp]; ok && old != ans && !locDiffers {
+					locDiffers = true
+					out.emit(map[string]any{"t": "ORACLE", "name": "lookup:repository-of-a-project-depends-on-what-the-resolver-looked-up-before",
+						"case": caseID, "u": u.id, "root": [][3]string{}, "got": c10Result{St: "lookup", M: [][2]string{{pp, strings.Join(ans[:], " | ")}}},
+						"want": c10Result{St: "lookup", M: [][2]string{{pp, strings.Join(old[:], " | ")}}}, "error_text": history})
+				}
+				if _, ok := locs[pp]; !ok {
+					locs[pp] = ans
+				}
+			}
+		}
+		vc.setPlan(nil)
+		probe(NewResolver(newDir(), vc, nil), "a fresh resolver")
 		for ri := 0; ri < nroots; ri++ {
 			ucfg := vuGenRoot(rng, u, true)
 			delete(ucfg, "self")
@@ -841,6 +873,7 @@ func TestVerifC10Cache(t *testing.T) {
 					out.emit(rec)
 				}
 				content("resolver-that-answered-other-roots-before", dir)
+				probe(res, "a resolver that answered single-requirement roots and the case's root before")
 				fresh, freshMsg := vcRun(root, NewResolver(dir, vc, nil))
 				nruns++
 				if !vcSame(fresh, want) {
@@ -994,7 +1027,18 @@ func TestVerifC10Cache(t *testing.T) {
 			out.emit(map[string]any{"t": "CC", "case": caseID, "u": u.id, "root": vuSortedCfg(root.Requirements), "want": want,
 				"cold": cold, "downloads": len(plan0.fetched), "faults": len(targets), "fired": fired, "not_fired": notFired, "entries_inspected": ninv})
 		}
+		var addrs []string
+		for a := range vc.repos {
+			addrs = append(addrs, a)
+		}
+		sort.Strings(addrs)
+		obsv := [][4]string{}
+		for _, pp := range probePaths {
+			a := locs[pp]
+			obsv = append(obsv, [4]string{pp, a[0], a[1], a[2]})
+		}
+		out.emit(map[string]any{"t": "LOCS", "u": u.id, "repositories": addrs, "lookups": obsv})
 	}
 	out.emit(map[string]any{"t": "END", "cases": caseID, "scenarios": nscen, "runs": nruns, "entries_checked_against_tables": ncontent,
-		"exported": nexport})
+		"exported": nexport, "repository_lookups": nprobes})
 }
